@@ -10,7 +10,7 @@ Lemma wf_remove_of_cfg c f n : wf_remove_cfg c f n = true -> wf_remove c f n = t
 Proof.
   unfold wf_remove_cfg, wf_remove. intros H. apply andb_true_iff in H as [H1 H2]. rewrite H1. cbn [andb].
   destruct (layer_named c f n) as [x|] eqn:Ex; [|reflexivity].
-  apply andb_true_iff in H2 as [H2 H5]. apply andb_true_iff in H2 as [H3 H4]. rewrite H4, H5, !andb_true_r.
+  apply andb_true_iff in H2 as [H3 H4]. rewrite H4, !andb_true_r.
   apply (proj1 (layer_named_some c f n x)) in Ex as (Hch & Hlg & Hld).
   pose proof (load_layer_name _ _ _ _ Hld) as Hn.
   apply links_apart_of_config.
